@@ -136,7 +136,10 @@ pub async fn make_base(scratch: &Path, backend: &'static str) -> Result<Base> {
     let account_id = dev.account_id.to_string();
     let password = dev.password.expose_secret().to_string();
     dev.account.sign_out().await?;
+    let target = dev.target.clone();
     drop(dev);
+    crate::account_world::close_target(&target).await;
+    drop(target);
     Ok(Base { dir, account_id, password })
 }
 
